@@ -12,7 +12,7 @@ value handed back - CBOR, JSON, {:?}, {:#?}, raw bytes - is scanned for every se
 raw, hex (both cases), decimal-list, base64 and base64url form (all three byte alignments, so a secret
 inside a longer encoded buffer is found); the attested COSE key is parsed from the raw authenticator
 data and must have exactly the labels 1, 3, -1, -2, -3."""
-import base64, json, re
+import base64, json, os, re
 import common, ceremony
 from ceremony import *
 
@@ -401,6 +401,85 @@ def debug_term(s):
 
 # --------------------------------------------------------------------------------------------
 
+_LITS = set()
+def public_candidates(p):
+    """public 32-byte values a relying party can put where a pre-hashed PRF salt goes: hashes of the string constants of the
+    extension code as it is now, of the RP ID, credential id and user handle, and a few fixed blocks"""
+    import glob, hashlib
+    lits = _LITS
+    srcs = [] if lits else glob.glob(os.path.join(common.REPO, "passkey-authenticator/src/authenticator/extensions/*.rs")) + \
+           [os.path.join(common.REPO, "passkey-authenticator/src/authenticator", f) for f in ("extensions.rs", "get_assertion.rs", "make_credential.rs")]
+    for f in srcs:
+        try:
+            text = open(f, encoding="utf-8").read()
+        except OSError:
+            continue
+        k = text.find("#[cfg(test)]\nmod")
+        text = text if k < 0 else text[:k]
+        for m in re.finditer(r'b?"((?:\\.|[^"\\])*)"', text):
+            try:
+                lits.add(m.group(1).encode("utf-8").decode("unicode_escape").encode("latin-1", "ignore"))
+            except Exception:
+                lits.add(m.group(1).encode("utf-8"))
+    cands = {}
+    def add(b, why):
+        if len(b) == 32: cands.setdefault(b, why)
+        cands.setdefault(hashlib.sha256(b).digest(), "SHA-256 of " + why)
+    for l in sorted(lits):
+        add(l, "the string constant %r of the extension code" % l[:60])
+        add(b"WebAuthn PRF\x00" + l, "the PRF salt of the string constant %r" % l[:60])
+    add(bytes.fromhex(p["rp_id"]), "the RP ID"); add(bytes.fromhex(p["cred_id"]), "the credential id")
+    if p.get("user_handle"): add(bytes.fromhex(p["user_handle"]), "the user handle")
+    for blk in (bytes(32), b"\xff" * 32, bytes(range(32))):
+        cands.setdefault(blk, "the fixed block %s.." % blk[:4].hex())
+    return cands
+
+
+def derived_secret_probe(run, binary, scenarios, outs):
+    """The two PRF secrets of a credential are independent random draws (model: two [ERand] effects; source: Props/C06
+    c06_secret_provenance_in_source).  When that tie is broken this is the search for a failing input: if a stored secret equals
+    HMAC-SHA-256(other stored secret, c) for a public 32-byte c, an assertion with the pre-hashed salt c RETURNS that secret.
+    Every credential with two secrets that any scenario left in a store is tested against the public candidates; each hit is
+    replayed as a ceremony and judged by the ordinary scan."""
+    seen, probes = set(), []
+    for sc, out in zip(scenarios, outs):
+        if "ops" not in out: continue
+        snaps = [obs.get("store_after", []) for obs in out["ops"]]
+        initial = {p["cred_id"]: ((p.get("hmac") or {}).get("w"), (p.get("hmac") or {}).get("wo")) for p in sc["store"]["content"]}
+        for snap in snaps:
+            for p in snap:
+                h = p.get("hmac")
+                if not h or not h.get("w") or not h.get("wo"): continue
+                if initial.get(p["cred_id"]) == (h["w"], h["wo"]): continue      # the pair the driver generated: independent by construction
+                key = (p["cred_id"], h["w"], h["wo"])
+                if key in seen: continue
+                seen.add(key)
+                A, B = bytes.fromhex(h["w"]), bytes.fromhex(h["wo"])
+                for c, why in public_candidates(p).items():
+                    for gated, (k, v) in ((True, (A, B)), (False, (B, A))):
+                        if ceremony.hmac_sha256(k, c) == v:
+                            probes.append((p, c, why, gated, sc["config"]))
+    fails = 0
+    for p, c, why, gated, cfg in probes[:4]:
+        rng = run.rng
+        cid = bytes.fromhex(p["cred_id"])
+        sc = scenario(store_kind="ref", content=[p], config=dict(cfg, hmac={"without_uv": True, "on_mc": True}),
+                      user={"script": [{"presence": True, "verification": gated}]},
+                      ops=[{"op": "get_assertion", "req": ga_req(rng, rp=bytes.fromhex(p["rp_id"]).decode(), allow=[cid], uv=gated, ext=prf_ext_ga(first=c))}])
+        out = run_all(binary, [sc])[0]
+        found = oracle(sc, out) if "ops" in out else []
+        for f in found[:1]:
+            run.violation(dict(f, kind="a stored PRF secret is returned to the relying party: one stored secret is HMAC-SHA-256(the other, %s), so an "
+                                       "assertion with that value as pre-hashed salt returns it (%s)" % (why, f["kind"]), scenario=sc,
+                               observed_result=out["ops"][f["op_index"]].get("result")))
+            fails += 1
+        if not found:
+            run.violation({"kind": "the stored PRF secrets of a credential are not independent: one is HMAC-SHA-256(the other, %s)" % why,
+                           "credential": p, "scenario": sc, "observed": out})
+            fails += 1
+    return {"credentials_with_two_secrets_tested": len(seen), "derivations_found": len(probes), "failures": fails}
+
+
 def run_all(binary, scenarios):
     return common.harness_run(binary, scenarios, timeout=1200)
 
@@ -413,6 +492,7 @@ def check(run):
         nonlocal t0
         phases[name] = round(time.time() - t0, 1); t0 = time.time()
     common.run_translator("status")
+    common.run_translator("ceremony_skeleton")
     bad = common.hygiene_gate()
     if bad:
         raise common.Tie("hygiene gate: " + "; ".join(bad))
@@ -448,6 +528,8 @@ def check(run):
     for si, f in leaks[:4]:
         run.violation(dict(f, scenario=scenarios[si], observed_result=outs[si]["ops"][f["op_index"]].get("result"))); n_viol += 1
 
+    run.cov["derived_secret_probe"] = derived_secret_probe(run, binary, scenarios, outs)
+    n_viol += run.cov["derived_secret_probe"]["failures"]
     mark("run + scan (tied scenarios)")
     # ---- many more executions through the oracle alone (the scan is cheap; the replay in Coq is not)
     extra_n = {"quick": 3000, "thorough": 30000}[run.tier]
